@@ -1,0 +1,56 @@
+//go:build verif
+
+// Contracts for govc (comment-only file; see /verif/DESIGN.md section 3).
+// What is decided here (C18): the SEQUENTIAL obligations of each pool function -- no index or nil panic in a worker
+// or in the caller for any interleaving that respects the rely condition on the shared counter (other goroutines
+// only decrease it; see the atomics in /verif/trusted/std.spec), every command put on the channel is well formed,
+// and the nil-pool fallbacks compute every index. What is NOT decided: that the caller's wait loop ends (no lost
+// wake-up, all workers available again) -- a liveness property over interleavings.
+package pool
+
+// every command on the channel: counter, notification channel and task are present; a Parallelize command carries a
+// valid index; a Search command's counter never exceeds the result capacity (stable under the rely: it only drops)
+//@ chanelem[C18] command := elem.ctr != nil && elem.ctrChanged != nil && !closed(elem.ctrChanged) && elem.f != nil && elem.results != nil && (elem.search ==> *elem.ctr <= len(elem.results)) && (!elem.search ==> (0 <= elem.i && elem.i < len(elem.results)))
+
+// The task handed to the pool cannot reach the state of the pool call it runs in (counter, result slice and
+// notification channel are locals of Search/Parallelize handed only to the workers): for the obligations of the pool
+// functions it neither writes nor closes any of them (A-OWN).
+//@ functype func(int) interface{}
+//@   modifies nothing
+//@   allocates
+//@ functype func() interface{}
+//@   modifies nothing
+//@   allocates
+
+//@ func workerSearch
+//@   nopanic[C18,C05]
+//@   requires ctr != nil && ctrChanged != nil && f != nil && !closed(ctrChanged) && *ctr <= len(results)
+//@   loop 1: invariant *ctr <= len(results)
+
+//@ func worker
+//@   nopanic[C18,C05]
+//@   requires commands != nil
+
+//@ func searchAlone
+//@   nopanic[C18,C05]
+//@   requires f != nil && count >= 0
+//@   ensures[C18] len(result) == count && forall(k, integer, (0 <= k && k < count) ==> result[k] != nil)
+//@   loop 1: invariant fresh(results) && len(results) == count && 0 <= i && forall(k, integer, (0 <= k && k < i) ==> results[k] != nil)
+//@   loop 2: invariant fresh(results) && len(results) == count && 0 <= i && i < count && forall(k, integer, (0 <= k && k < i) ==> results[k] != nil)
+
+//@ func parallelizeAlone
+//@   nopanic[C18,C05]
+//@   requires f != nil && count >= 0
+//@   ensures[C18] len(result) == count && callcount(f) == count
+//@   loop 1: invariant fresh(results) && len(results) == count && 0 <= i && i <= count && callcount(f) == i
+
+//@ func (*Pool).Search
+//@   nopanic[C18,C05]
+//@   requires f != nil && count >= 0 && (p != nil ==> p.commands != nil && !closed(p.commands))
+//@   ensures[C18] len(result) == count
+
+//@ func (*Pool).Parallelize
+//@   nopanic[C18,C05]
+//@   requires f != nil && count >= 0 && (p != nil ==> p.commands != nil && !closed(p.commands))
+//@   ensures[C18] len(result) == count
+//@   loop 1: invariant 0 <= cmdI && len(results) == count && fresh(results) && ctrChanged != nil && !closed(ctrChanged) && p != nil && p.commands != nil && !closed(p.commands)
